@@ -426,7 +426,7 @@ def _total_order_cols(g: G, sch: Sch, avoid=(), strict=False):
     return None
 
 
-def step_ordered_window(g: G, sch: Sch, prefer=()):
+def step_ordered_window(g: G, sch: Sch, prefer=(), prefer_prob=0.7):
     """prefer: columns assigned by the directly preceding extend — put one FIRST in order_by with high probability
     (an order column computed one step earlier is what SQL-level extend merging must not lose track of)."""
     pb = _group_keys(g, sch, lo=0, hi=1)
@@ -434,7 +434,7 @@ def step_ordered_window(g: G, sch: Sch, prefer=()):
     if ob is None:
         return None
     pref = [c for c in prefer if c in sch.cols and not sch.cols[c]["null"] and not sch.cols[c]["zn"] and c not in pb and sch.cols[c]["type"] != "bool"]
-    if pref and g.boolean(0.7):
+    if pref and g.boolean(prefer_prob):
         lead = g.pick(pref)
         ob = [lead] + [c for c in ob if c != lead]
     # keys must be wholly inside order_by ∪ partition_by: ordering within a partition is then total
@@ -858,6 +858,20 @@ class Builder:
             victim = g.pick([x, y])
             if len(schemas[new].names()) > 1:
                 nxt = self.add({"op": "drop_columns", "src": new, "cols": [victim]})
+                new = nxt if nxt is not None else new
+        if (
+            new is not None
+            and nd["op"] == "extend"
+            and not nd.get("order_by")
+            and cfg.get("extend_then_ordered_window_prob")
+            and g.boolean(cfg["extend_then_ordered_window_prob"])
+        ):
+            # a row-wise extend directly followed by a window ordered by a column it assigned (fresh or overwritten):
+            # the pair a SQL-level extend merge / dependency analysis must keep apart
+            nd2 = step_ordered_window(g, schemas[new], prefer=[k for k, _ in nd["ops"]], prefer_prob=1.0)
+            if nd2 is not None:
+                nd2["src"] = new
+                nxt = self.add(nd2)
                 new = nxt if nxt is not None else new
         return new
 
